@@ -22,6 +22,10 @@ func kvLookupVisitsEveryTable(r *core.Run) {
 		if fn == nil {
 			continue
 		}
+		if (m == "Range" || m == "RangeHKey") && kvRangeThroughWalker(r, fn, m) {
+			cnt++
+			continue
+		}
 		for _, l := range core.IndexLoops(fn.SSA) {
 			if l.LenOf == nil || !isTablesLoad(l.LenOf) {
 				continue
@@ -289,4 +293,155 @@ func kvSizeBoundaryAgreement(r *core.Run) {
 			fmt.Sprintf("store rejects on %v, empty table refuses on %v over the orderings {<,==,>}: every accepted entry fits", krej, trej),
 			bad+": the retry loop allocates a new table forever (the request never returns and memory grows without bound)")
 	}
+}
+
+// kvRangeThroughWalker recognises the iteration written with a table walker: Range hands a
+// closure to a helper of the store that calls it for k.tables[(start+i) % len(k.tables)],
+// i = 0 .. len-1 (a rotation visits every table once), and stops only when the closure
+// answers false; the closure asks the table (Table.Range / RangeHKey) on every call. It
+// emits the two obligations of the plain loop form and reports whether the form was found.
+func kvRangeThroughWalker(r *core.Run, fn *core.Fn, m string) bool {
+	p := r.P
+	name := fn.Name
+	type cand struct {
+		h  *ssa.Function // the function holding the walk
+		cb *ssa.Function // the visiting closure, when known from the call site
+	}
+	// the walk written in place (or a new helper inlined by the normaliser) ...
+	cands := []cand{{fn.SSA, nil}}
+	// ... or in a helper of the store that is handed the closure
+	for _, in := range findInstrs(fn.SSA, false, func(in ssa.Instruction) bool { _, ok := in.(ssa.CallInstruction); return ok }) {
+		c := in.(ssa.CallInstruction)
+		h := p.ByObj[core.CalleeObj(c)]
+		if h == nil || h.SSA == nil || core.RelPkg(h.Pkg.PkgPath) != kvPkg {
+			continue
+		}
+		for _, a := range c.Common().Args {
+			switch x := a.(type) {
+			case *ssa.MakeClosure:
+				if g, ok := x.Fn.(*ssa.Function); ok {
+					cands = append(cands, cand{h.SSA, g})
+				}
+			case *ssa.Function:
+				cands = append(cands, cand{h.SSA, x})
+			}
+		}
+	}
+	for _, cd0 := range cands {
+		h, cb := cd0.h, cd0.cb
+		// the walker
+		for _, l := range core.IndexLoops(h) {
+			if l.LenOf == nil || !isTablesLoad(l.LenOf) || l.Lo != 0 || l.HiOff != 1 {
+				continue
+			}
+			var visit *ssa.Call
+			for _, lc := range l.Calls() {
+				call, ok := lc.(*ssa.Call)
+				if !ok {
+					continue
+				}
+				if len(call.Call.Args) != 1 {
+					continue
+				}
+				thisCb := cb
+				if _, isPar := call.Call.Value.(*ssa.Parameter); isPar {
+					if cb == nil {
+						continue
+					}
+				} else if g := call.Call.StaticCallee(); g != nil && g.Parent() == fn.SSA && cb == nil {
+					thisCb = g
+				} else {
+					continue
+				}
+				u, ok := call.Call.Args[0].(*ssa.UnOp)
+				if !ok {
+					continue
+				}
+				ia, ok := u.X.(*ssa.IndexAddr)
+				if !ok || !isTablesLoad(ia.X) {
+					continue
+				}
+				idx := ia.Index
+				if rem, ok := idx.(*ssa.BinOp); ok && rem.Op == token.REM {
+					if add, ok := rem.X.(*ssa.BinOp); ok && add.Op == token.ADD && (add.X == l.Index || add.Y == l.Index) && lenArg(rem.Y) != nil {
+						idx = l.Index
+					} else if add, ok := rem.X.(*ssa.BinOp); ok && add.Op == token.ADD && (add.X == l.Index || add.Y == l.Index) {
+						// n := len(k.tables) kept in a local
+						if lc2, ok := rem.Y.(*ssa.Call); ok && lenArg(lc2) != nil {
+							idx = l.Index
+						}
+					}
+				}
+				if idx == l.Index {
+					visit = call
+					cb = thisCb
+				}
+			}
+			if visit == nil {
+				continue
+			}
+			every := true
+			for _, lt := range l.Latches() {
+				if !visit.Block().Dominates(lt) {
+					every = false
+				}
+			}
+			// the closure asks the table on every call
+			asks := false
+			for _, tc := range findInstrs(cb, false, callTo(tablePkg+".(*Table)."+m)) {
+				all := true
+				for _, ret := range core.Returns(cb) {
+					if !tc.Block().Dominates(ret.Block()) {
+						all = false
+					}
+				}
+				if all {
+					asks = true
+				}
+			}
+			r.Check(every && asks, "lookup-visits-every-table", name, site(r, instrPos(visit)),
+				"every table is handed to the visiting closure (a rotation over all indices), which asks the table on every call",
+				"some tables are skipped: the walker does not call the visiting closure in every iteration, or the closure does not always call Table."+m)
+			// early exits only on the closure's answer
+			early := ""
+			for b := range l.Region() {
+				if b == l.Header {
+					continue
+				}
+				leaves := false
+				for _, sb := range b.Succs {
+					if !l.Region()[sb] {
+						leaves = true
+					}
+				}
+				if len(b.Instrs) > 0 {
+					if _, isRet := b.Instrs[len(b.Instrs)-1].(*ssa.Return); isRet {
+						leaves = true
+					}
+				}
+				if !leaves {
+					continue
+				}
+				guarded := false
+				for _, cd := range core.Conditions(b) {
+					if cd.Val == ssa.Value(visit) && !cd.Truth {
+						guarded = true
+					}
+				}
+				if ifi, ok := b.Instrs[len(b.Instrs)-1].(*ssa.If); ok {
+					if v, _ := core.StripNot(ifi.Cond); v == ssa.Value(visit) {
+						guarded = true
+					}
+				}
+				if !guarded {
+					early = site(r, instrPos(b.Instrs[len(b.Instrs)-1]))
+				}
+			}
+			r.Check(early == "", "lookup-visits-every-table", name+" walks to the end", site(r, l.Pos()),
+				"the walk over the tables ends early only when the visitor asks for it",
+				"the walk over the tables can end early (at "+early+") without the visitor asking for it: the tables that were not reached are invisible to this operation")
+			return true
+		}
+	}
+	return false
 }
